@@ -22,6 +22,18 @@ ASSUMPTIONS = ["covers the hash seeds actually run (reported in the evidence), n
                "worker processes import smoothmath from the same working tree as the parent"]
 
 VARS = ["alpha", "beta", "gamma", "delta", "omega", "kappa", "x1", "y_2", "zeta", "theta", "mu", "Ab"]
+# names that tie under case folding / differ in one character / share a prefix: any "almost total" ordering of names
+# (case-insensitive sort, sort by length, by first letter ...) falls back to set order exactly for such names
+TIED = [["Alpha", "alpha", "ALPHA"], ["x1", "X1", "x2"], ["rate", "Rate", "rates"], ["ab", "ba", "aB"], ["tmax", "tMax", "t_max"]]
+
+
+def draw_names(data, k):
+    if data.draw(st.integers(0, 2)) == 0:
+        group = list(data.draw(st.sampled_from(TIED)))
+        rest = [v for v in data.draw(st.permutations(VARS)) if v not in group]
+        names = (group + rest)[:max(k, len(group))]
+        return list(data.draw(st.permutations(names)))
+    return list(data.draw(st.permutations(VARS))[:k])
 NWORKERS = 3
 VERIF = os.path.dirname(os.path.dirname(os.path.dirname(os.path.abspath(__file__))))
 
@@ -124,7 +136,7 @@ def make_general(stats):
     @given(st.data())
     def test(data):
         k = data.draw(st.integers(3, 6))
-        names = data.draw(st.permutations(VARS))[:k]
+        names = draw_names(data, k)
         how = data.draw(st.integers(0, 4))
         if how <= 1:
             m = data.draw(S.covering(names, depth=1))
@@ -158,7 +170,7 @@ def make_extreme(stats):
     @given(st.data())
     def test(data):
         k = data.draw(st.integers(3, 5))
-        names = data.draw(st.permutations(VARS))[:k]
+        names = draw_names(data, k)
         m = data.draw(S.covering(names, depth=1, tags=("Multiply", "Divide", "Add", "Reciprocal", "NthPower", "Logarithm",
                                                         "NthRoot", "Minus", "Power", "Exponential")))
         vals = [0, 0.0, 1e-200, -1e-180, 1e200, -1e150, 1, 2, -1, 1e-308, 3.5]
